@@ -718,6 +718,25 @@ func (env *SpecEnv) call(n *ast.CallExpr) Val {
 		return vBool(sApp("err-is", arg(0).T, arg(1).T))
 	case "forall", "exists":
 		return env.quant(fname == "forall", n)
+	case "forallT":
+		// forallT(k, lo, hi, trigger, body): like forall with an explicit trigger term (avoids matching loops)
+		if len(n.Args) != 5 {
+			env.fail("forallT expects (k, lo, hi, trigger, body)")
+		}
+		id, ok := n.Args[0].(*ast.Ident)
+		if !ok {
+			env.fail("bound variable must be an identifier")
+		}
+		lo, hi := env.eval(n.Args[1]), env.eval(n.Args[2])
+		sub := env.fork()
+		j := sym(e.fresh("q"))
+		sub.bound[id.Name] = j
+		tr := sub.eval(n.Args[3])
+		body := sub.eval(n.Args[4])
+		if body.K != KBool {
+			env.fail("quantifier body must be boolean")
+		}
+		return vBool(fmt.Sprintf("(forall ((%s Int)) (! (=> (and (<= %s %s) (< %s %s)) %s) :pattern (%s)))", j, lo.T, j, j, hi.T, body.T, tr.T))
 	case "elemRef":
 		// elemRef(s, i): reference of the i-th element of a slice of structs
 		need(2)
@@ -745,6 +764,10 @@ func (env *SpecEnv) call(n *ast.CallExpr) Val {
 		for i, p := range m.Params {
 			sub.vars[p] = env.eval(n.Args[i])
 		}
+		if m.Pkg != nil {
+			sub.pkg = m.Pkg
+		}
+		sub.noLocals = true
 		return sub.eval(m.Body)
 	}
 	if env.in != nil {
